@@ -468,7 +468,6 @@ Section Bodies.
   Definition dict_value (kk k : kind) (raw : json) : outcome mval :=
     match raw with
     | JObj members => do l' <- mapM (dict_member kk k) members; Ok (MDict l')
-    | JStr [] | JArr [] => Ok (MDict [])
     | _ => reject
     end.
 
@@ -626,9 +625,7 @@ Section NoNone.
     Proof.
       intros kk k v x H. unfold dict_value in H.
       destruct v as [| | | |s|l|members]; try discriminate.
-      - destruct s; [|discriminate]. inversion H. reflexivity.
-      - destruct l; [|discriminate]. inversion H. reflexivity.
-      - destruct (mapM (dict_member pk kk k) members) as [l'|] eqn:E; [|discriminate]. cbn [bind] in H.
+      destruct (mapM (dict_member pk kk k) members) as [l'|] eqn:E; [|discriminate]. cbn [bind] in H.
         inversion H. subst x. apply mapM_Forall2 in E. cbn [no_none_items]. rewrite forallb_forall.
         intros y Hy. clear H. induction E as [|a b l l' Hab _ IH]; [destruct Hy|].
         destruct Hy as [Hy|Hy]; [|apply IH; exact Hy]. subst y.
@@ -985,8 +982,6 @@ Section RtStep.
   Proof.
     intros kk k v x Hk H. unfold dict_value in H.
     destruct v as [| | | |s|l|members]; try discriminate.
-    - destruct s; [|discriminate]. inversion H. reflexivity.
-    - destruct l; [|discriminate]. inversion H. reflexivity.
     - destruct (mapM (dict_member pk kk k) members) as [l'|] eqn:E; [|discriminate]. cbn [bind] in H.
       inversion H. subst x. apply mapM_Forall2 in E.
       assert (Hm : forall b, In b l' -> exists w, pk kk (JStr (fst b)) = Ok w /\ pk k (EXP (snd b)) = Ok (snd b)
@@ -1882,8 +1877,6 @@ Section HookTools.
     intros pk kk k v y H. unfold dict_value in H.
     assert (Hd : exists l, y = MDict l).
     { destruct v as [| | | |s|l|members]; try discriminate.
-      - destruct s; [|discriminate]. inversion H. eauto.
-      - destruct l; [|discriminate]. inversion H. eauto.
       - destruct (mapM (dict_member pk kk k) members); [|discriminate]. cbn [bind] in H. inversion H. eauto. }
     destruct Hd as [l Ey]. subst y. unfold exp. cbn [to_object]. eauto.
   Qed.
